@@ -249,8 +249,16 @@ structure Root where
 
 def addRuleIdx (idx : Idx) (r : Rule) : Idx := r.kinds.foldl (fun i k => addAt r k i) idx
 
-/-- `ruleIndexRoot.AddRule`; the flag is "an error was returned" -/
+/-- `ruleIndexRoot.AddRule` (after fix b2c3167: the index validates the rule before its name is
+    registered, a refused rule leaves no trace); the flag is "an error was returned" -/
 def Root.addRule (rt : Root) (r : Rule) : Root × Bool :=
+  if r.name ∈ rt.names then (rt, true)
+  else if r.kinds = [] ∨ r.scopeNil = true then (rt, true)
+  else ({ idx := addRuleIdx rt.idx r, names := r.name :: rt.names, indexed := rt.indexed ++ [r] }, false)
+
+/-- the code before b2c3167 registered the name first: a refused rule blocked its name (kept as a
+    negative example, see `Props/C01.lean`) -/
+def Root.addRuleOld (rt : Root) (r : Rule) : Root × Bool :=
   if r.name ∈ rt.names then (rt, true)
   else if r.kinds = [] ∨ r.scopeNil = true then ({ rt with names := r.name :: rt.names }, true)
   else ({ idx := addRuleIdx rt.idx r, names := r.name :: rt.names, indexed := rt.indexed ++ [r] }, false)
@@ -434,13 +442,13 @@ def firesList (rx : Nat → Val → Bool) (rules : List Rule) (allowed : List Se
   let supp := trig.flatMap (·.suppress)
   (trig.map (·.name)).filter (· ∉ supp)
 
-/-- the rules of a list that `AddRule` accepts one after the other: the name is new (any earlier
-    rule of that name — accepted or refused — blocks it) and kind match and scope match are there -/
+/-- the rules of a list that `AddRule` accepts one after the other: kind match and scope match are
+    there and no earlier ACCEPTED rule has the name (a refused rule does not block its name) -/
 def accepted : List Rule → List String → List Rule
   | [], _ => []
   | r :: rest, seen =>
     if r.name ∈ seen then accepted rest seen
-    else if r.kinds = [] ∨ r.scopeNil = true then accepted rest (r.name :: seen)
+    else if r.kinds = [] ∨ r.scopeNil = true then accepted rest seen
     else r :: accepted rest (r.name :: seen)
 
 /-- flag of the longest prefix of the path on which `d` is defined -/
